@@ -11,8 +11,8 @@ META = {
              'configuration); non-trivial = reduction with >= 3 retained points, or a curve from a hostile '
              'family (constant, collinear run ending at 0, small-integer plateaus, staircases)'),
     'require': {'wellformed': 3000, 'nontrivial': 500},
-    'scale': {'quick': 1, 'thorough': 20},
-    'quick_cases': 3000, 'thorough_cases': 60000,
+    'scale': {'quick': 1, 'thorough': 80},
+    'quick_cases': 3000, 'thorough_cases': 240000,
     'assumptions': ['termination is decided as bounded progress per execution (step bounds linear in n and a '
                     'strictly decreasing variant on the RDP work stack), not for all inputs',
                     'sys.monitoring LINE events fire once per loop iteration (CPython 3.12)'],
